@@ -195,6 +195,24 @@ def gen_interrupts(ctx, rnd):
                    locations=["ws://b.example/"], tag=f"interrupt2:{kind}")
 
 
+def gen_accept_for_other_text(ctx, rnd):
+    """an accept value that is the RIGHT digest of some other text the client sent in the same request (the name or value of
+    one of its own headers, its Host, its path): derived from THAT REQUEST, but not from its key — never a success."""
+    for hdr_form in ("dict", "list"):
+        for via in ("connect", "create_connection"):
+            for which in ("name", "value", "host", "path"):
+                r0 = rands(rnd, 1)[0]
+                k0 = key_of(r0)
+                text = {"name": "X-Token", "value": "s3cr3t", "host": "example.com", "path": "/chat"}[which]
+                hdrs = good_headers(k0, accept=accept_of(text))
+                header = {"X-Trace": "1", "X-Token": "s3cr3t"} if hdr_form == "dict" else ["X-Trace: 1", "X-Token: s3cr3t"]
+                yield Case("ws://example.com/chat", [DialSpec([("chunk", response("101", hdrs))], rand=r0)], options={"header": header},
+                           via=via, tag=f"accept-of-other-text:{which}:{hdr_form}:{via}")
+                # and the honest response to the same request IS a success (the key is the one in the request)
+                yield Case("ws://example.com/chat", [DialSpec([("chunk", response("101", good_headers(k0)))], rand=r0)],
+                           options={"header": header}, via=via, tag=f"accept-right-with-headers:{hdr_form}:{via}")
+
+
 def gen_failures(ctx, rnd):
     r0, r1 = rands(rnd, 2)
     k0, k1 = key_of(r0), key_of(r1)
@@ -588,7 +606,7 @@ def run_corpus(ctx):
 
 def all_cases(ctx):
     rnd = ctx.rng("e2e")
-    for g in (gen_chains, gen_failures, gen_options_chain, gen_single, gen_truncations, gen_interrupts, gen_soup, gen_garbled):
+    for g in (gen_chains, gen_failures, gen_options_chain, gen_single, gen_accept_for_other_text, gen_truncations, gen_interrupts, gen_soup, gen_garbled):
         yield from g(ctx, rnd)
 
 
